@@ -19,8 +19,7 @@ Lemma live_settle c nb w e nom alts defer :
     ((Live c (nb + 1) w1 (e_disk e1) defer /\ st_rotate w1 = None /\ sp_of (sh (e_disk e1)) = nom /\
       (e_fault e = None -> e_fault e1 = None)) \/
      (e_fault e1 = None /\ st_rotate w1 = None /\
-      ((Seal c (nb + 1) w1 (e_disk e1) /\ sp_of (sh (e_disk e1)) = nom) \/
-       (st_failed w1 = true /\ RV c (nb + 1) w1 (e_disk e1) nom)) /\
+      st_failed w1 = true /\ RV c (nb + 1) w1 (e_disk e1) nom /\
       RD c (nb + 1) (e_disk e1) alts defer)).
 Proof.
   intros Hc Hnb HLive Hsp Hin. pose proof HLive as (HL & Hstale). pose proof (LInv_closed _ _ _ _ HL) as Hcl.
@@ -48,7 +47,8 @@ Proof.
   assert (Hgarb : forall n, In n X -> unlisted (e_disk e') n).
   { intros n Hx. apply (unlisted_keep c nb w d (e_disk e') n HL (Hex n Hx) (HXu n Hx) Hms). }
   change (e_disk ec) with (sh d) in Hsp', Hext. rewrite Hsp in Hsp', Hext.
-  destruct (rotate_lock X c w e ec w' e' wc' ec' HR Erot Hrc) as [(-> & HR')|(Hf' & _ & _ & [(-> & Hd)|(-> & ps & Hpc)])].
+  destruct (rotate_lock X c w e ec w' e' wc' ec' HR Erot Hrc) as [(-> & HR')|(Hf' & _ & _ & -> & [Hd|[(ps & Hpc)|Hfl0]])];
+    [| | |destruct HL' as (_ & K & _); congruence].
   - split; [apply (LInv_closed _ _ _ _ HL')|]. left.
     destruct (Rd_live c (nb + 1) _ wc' e' ec ec' X [] defer Hext HL' (Rd_of_R _ _ _ _ HR')) as (HLv & Hsps).
     { intros n f p Hx _ _ _. right. apply Hgarb. exact Hx. }
@@ -62,13 +62,15 @@ Proof.
       pose proof (sh_mutate w0 t0 e0 r1 w1 e1 Hfe Em) as (_ & K) end.
     inversion Erot; subst. exact K.
   - (* the commit failed: the tail stays sealed, no rotation pending *)
-    split; [exact Hcl|]. right. split; [exact Hf'|]. split; [reflexivity|]. rewrite Hd. split.
-    + left. split; [|exact Hsp]. exists tw. split; [apply (lv_tail _ _ _ _ _ _ _ _ V)|]. split; [lia|]. split; [reflexivity|].
+    split; [exact Hcl|]. right. split; [exact Hf'|]. split; [reflexivity|]. rewrite Hd.
+    + split; [reflexivity|]. split; [|
+        assert (HRD0 : RD c nb d alts defer) by (apply (live_RD c nb w d alts defer HLive); rewrite Hsp; exact Hin);
+        eapply RD_mono; [| | |exact HRD0]; [lia|apply incl_refl|apply incl_refl]].
+      apply (RV_ext c (nb + 1) (rot_none w)); [reflexivity|reflexivity|]. rewrite <- Hsp. apply RV_of_seal.
+      exists tw. split; [apply (lv_tail _ _ _ _ _ _ _ _ V)|]. split; [lia|]. split; [reflexivity|].
       split; [|exact HSU]. rewrite Ti.
       replace (set_rot (rot_none w) (Some (df_seal f0))) with w; [eapply LInv_mono; [|exact HL]; lia|].
       rewrite <- (set_rot_id w) at 1. rewrite Er. reflexivity.
-    + assert (HRD0 : RD c nb d alts defer) by (apply (live_RD c nb w d alts defer HLive); rewrite Hsp; exact Hin).
-      eapply RD_mono; [| | |exact HRD0]; [lia|apply incl_refl|apply incl_refl].
   - (* committed, but the new tail could not be created *)
     split; [exact Hcl|]. right. split; [exact Hf'|]. split; [reflexivity|].
     assert (Hmd' : dk_meta (e_disk e') = Some ps).
@@ -79,10 +81,9 @@ Proof.
       apply cand_alts. rewrite <- HAm. exact Hin.
     + intros n Hx. right. intros s Hs. apply (HXu n Hx (persistent w) s (live_meta c nb w d HL) Hs).
     + intros n s Hx Hs. apply (Hgarb n Hx ps s Hmd' Hs).
-    + split; [|exact HRD]. right. split; [reflexivity|].
-      destruct HM as [(K & _)|(_ & [(K & _)|[(K & _)|(_ & _ & K)]])]; [cbn in K; congruence| | |exact K].
-      * destruct K as ((_ & K & _) & _). cbn in K. discriminate.
-      * destruct K as (tw2 & _ & _ & _ & (_ & K & _) & _). cbn in K. discriminate.
+    + split; [reflexivity|]. split; [|exact HRD].
+      destruct HM as [(K & _)|(_ & [(K & _)|(_ & _ & K)])]; [cbn in K; congruence| |exact K].
+      destruct K as ((_ & K & _) & _). cbn in K. discriminate.
 Qed.
 
 (* ------------------------------------------------------------------ *)
@@ -162,12 +163,10 @@ Lemma Mode_setstable c nb w d nom defer k v :
   Mode c nb w d nom defer -> Mode c nb w (apply_act d (ASetStable k v)) (if st_closed w then nom else set_kv k v nom) defer.
 Proof.
   intros [(Hcl & Hr)|(Hcl & HM)]; rewrite Hcl; [left; auto|right]. split; [exact Hcl|].
-  destruct HM as [((HL & Hst) & Hsp)|[((tw & A & B & C & HL & HN) & Hsp)|(Hf & Hr & (wc & dc & HL & Hsp & Hs & Ht & Hlk & Hstb & ND & Hlast))]].
+  destruct HM as [((HL & Hst) & Hsp)|(Hf & Hr & (wc & dc & HL & Hsp & Hs & Ht & Hlk & Hstb & ND & Hlast))].
   - left. split; [split; [rewrite sh_setstable; apply LInv_setstable; exact HL|eapply stale_tail_ok_files; [| |exact Hst]; reflexivity]|].
     rewrite sh_setstable, sp_of_set, Hsp. reflexivity.
-  - right. left. split; [exists tw; split; [exact A|]; split; [exact B|]; split; [exact C|]; split; [rewrite sh_setstable; apply LInv_setstable; exact HL|eapply stale_unlisted_files; [| |exact HN]; reflexivity]|].
-    rewrite sh_setstable, sp_of_set, Hsp. reflexivity.
-  - right. right. split; [exact Hf|]. split; [exact Hr|].
+  - right. split; [exact Hf|]. split; [exact Hr|].
     exists wc, (apply_act dc (ASetStable k v)). split; [apply LInv_setstable; exact HL|]. split; [rewrite sp_of_set, Hsp; reflexivity|].
     split; [exact Hs|]. split; [exact Ht|]. split; [exact Hlk|]. split; [cbn [apply_act dk_stable]; rewrite Hstb; reflexivity|].
     split; [exact ND|exact Hlast].
@@ -196,28 +195,30 @@ Lemma set_step c nb w e nom alts defer k v nl :
   exists r e', set_stable w k v nl e = (r, e') /\
     ((r = ROk /\ exists nom', spec_accepts nom (OSet k v nl) = Some nom' /\
         Mode c nb w (e_disk e') nom' defer /\ RD c nb (e_disk e') (nom' :: app_op (OSet k v nl) alts) defer) \/
-     (r <> ROk /\ e_disk e' = e_disk e)).
+     (r <> ROk /\ e_disk e' = e_disk e) \/
+     (* the write was reported as failed and found applied *)
+     (r <> ROk /\ exists nom', spec_accepts nom (OSet k v nl) = Some nom' /\
+        Mode c nb w (e_disk e') nom' defer /\ RD c nb (e_disk e') (nom' :: app_op (OSet k v nl) alts) defer)).
 Proof.
   intros Hcl HM HRD Hin Hdef. unfold set_stable. rewrite Hcl.
   destruct (key_ok k) eqn:Hk; cbn [negb].
-  - destruct (io_cases (ASetStable k v) (inc_stable e true) eq_refl) as [(e1 & E & D & _)|(e1 & E & D & _)]; rewrite E.
-    + exists ROk, e1. split; [reflexivity|]. left. split; [reflexivity|]. exists (set_kv k v nom).
+  - assert (Happ : forall e1, e_disk e1 = apply_act (e_disk (inc_stable e true)) (ASetStable k v) ->
+              exists nom', spec_accepts nom (OSet k v nl) = Some nom' /\
+                Mode c nb w (e_disk e1) nom' defer /\ RD c nb (e_disk e1) (nom' :: app_op (OSet k v nl) alts) defer).
+    { intros e1 D. exists (set_kv k v nom).
       split; [unfold spec_accepts; cbn [step_spec]; rewrite Hk; reflexivity|]. rewrite D. change (e_disk (inc_stable e true)) with (e_disk e).
       split; [|apply RD_setstable; assumption].
-      pose proof (Mode_setstable c nb w (e_disk e) nom defer k v HM) as K. rewrite Hcl in K. exact K.
-    + exists RErrIO, e1. split; [reflexivity|]. right. split; [discriminate|exact D].
+      pose proof (Mode_setstable c nb w (e_disk e) nom defer k v HM) as K. rewrite Hcl in K. exact K. }
+    destruct (io_cases3 (ASetStable k v) (inc_stable e true) eq_refl) as [(e1 & E & D & _)|[(e1 & E & D & _)|(e1 & E & _ & D & _)]]; rewrite E.
+    + exists ROk, e1. split; [reflexivity|]. left. split; [reflexivity|]. apply Happ. exact D.
+    + exists RErrIO, e1. split; [reflexivity|]. right. left. split; [discriminate|exact D].
+    + exists RErrIO, e1. split; [reflexivity|]. right. right. split; [discriminate|]. apply Happ. exact D.
   - destruct nl.
     + exists ROk, (inc_stable e true). split; [reflexivity|]. left. split; [reflexivity|]. exists nom.
       assert (Hacc : forall a, spec_accepts a (OSet k v true) = Some a) by (intros a; unfold spec_accepts; cbn [step_spec]; rewrite Hk; reflexivity).
       split; [apply Hacc|]. split; [exact HM|]. rewrite (app_op_noop _ _ Hacc).
       eapply RD_mono; [| | |exact HRD]; [lia|intros x Hx; right; exact Hx|apply incl_refl].
-    + exists RErrOther, (inc_stable e true). split; [reflexivity|]. right. split; [discriminate|reflexivity].
-Qed.
-
-Lemma Mode_seal c nb w d nom defer : Seal c nb w d -> sp_of (sh d) = nom -> Mode c nb w d nom defer.
-Proof.
-  intros HS Hsp. right. destruct HS as (tw & A & B & C & HL & HN). split; [apply (LInv_closed _ _ _ _ HL)|].
-  right. left. split; [exists tw; auto|exact Hsp].
+    + exists RErrOther, (inc_stable e true). split; [reflexivity|]. right. left. split; [discriminate|reflexivity].
 Qed.
 
 Lemma RD_seal c nb w d alts defer : Seal c nb w d -> In (sp_of (sh d)) alts -> RD c nb d alts defer.
